@@ -475,6 +475,9 @@ func runC01(o *Out, r *rand.Rand, thorough bool, args []string) {
 	if want("trav") {
 		c01_runTraverse(o, r, scale)
 	}
+	if want("utpbody") {
+		runUtpBody(o, r)
+	}
 	if want("wire") {
 		runChildren(o, r, thorough)
 	}
@@ -1159,4 +1162,43 @@ func runOfferedContents(o *Out, r *rand.Rand, scale int, n *c01Node) {
 	for i := 0; i < 60*scale; i++ {
 		emit(r.Intn(4), []Term{lit(rnd(r.Intn(60)))})
 	}
+}
+
+// runUtpBody: a looked-up item that arrives over a uTP stream the peer really serves (connect, write, EOF), with the body
+// framed the way the peer believes is negotiated: honestly, raw while we expect the version-1 frame (decoding fails AFTER a
+// complete read), and framed while we expect raw bytes. The call returns a value or an error.
+func runUtpBody(o *Out, r *rand.Rand) {
+	mn := newMemNet()
+	// the serving side frames by what the asker ADVERTISES; the asker decodes by what its version cache says about the very
+	// node object the look-up is given (set here by hand to disagree)
+	a0 := startNode(mn, r, nodeOpts{ip: net.IP{34, 40, 1, 1}, port: 9900, versions: []uint8{0}, utpLimit: 20})
+	a1 := startNode(mn, r, nodeOpts{ip: net.IP{34, 40, 1, 3}, port: 9902, versions: []uint8{0, 1}, utpLimit: 20})
+	b := startNode(mn, r, nodeOpts{ip: net.IP{34, 40, 1, 2}, port: 9901, versions: []uint8{0, 1}, utpLimit: 20})
+	for _, a := range []*realNode{a0, a1} {
+		a.p.AddEnr(b.p.Self())
+		b.p.AddEnr(a.p.Self())
+		_, _ = a.p.VerifPing(b.p.Self())
+	}
+	for i, kind := range []string{"honest", "raw_for_v1", "framed_for_v0", "honest"} {
+		key := []byte(fmt.Sprintf("utpbody-%d", i))
+		idh := sha256.Sum256(key)
+		_ = b.store.Put(key, idh[:], genBytes(2000+i, i))
+		a, bn := a1, b.p.Self()
+		switch kind {
+		case "raw_for_v1":
+			a = a0                           // b sends raw bytes (version 0 is all a0 advertises) ...
+			a.p.VerifVersionsCacheSet(bn, 1) // ... and a0 expects the version-1 frame
+		case "framed_for_v0":
+			a.p.VerifVersionsCacheSet(bn, 0) // b frames (both speak version 1), a1 reads raw bytes
+		}
+		out := guarded(3*callTimeout, func() string {
+			_, _, err := a.p.VerifFindContent(bn, key)
+			return errClass(err)
+		})
+		o.Case(fmt.Sprintf("utpbody kind=%s n=%d", kind, i), out)
+		checkAbort()
+	}
+	a0.stop()
+	a1.stop()
+	b.stop()
 }
